@@ -37,6 +37,9 @@ def main() -> None:
                                                      for vv in v.values()))
             elif isinstance(v, list):
                 first[k] = [id(x) for x in v[:50]]
+                # the entries themselves (an in-place update keeps identity and length)
+                first[k + "/content"] = hash(tuple(tuple(sorted((str(a), str(b)) for a, b in x.items()))
+                                                   if isinstance(x, dict) else str(x) for x in v))
         algos = {k: sorted((n, repr(x)) for n, x in vars(a).items()) if hasattr(a, "__dict__") else [] for k, a in
                  dict.items(checksum.algorithms)}
         return copy.deepcopy((reg, first, algos))
@@ -187,6 +190,9 @@ def main() -> None:
                 IBAN.generate("ES", "2100", "0200051332", "0418")
                 IBAN.generate("GB", "NWBK601613", "31926819")
                 IBAN.random(country_code="DE", random=_random.Random(1))
+                IBAN.random(country_code="DE", random=_random.Random(3), bank_code="37040044")
+                IBAN.random(country_code="GB", random=_random.Random(4), account_code="31926819")
+                IBAN.random(country_code="PL", random=_random.Random(5), branch_code="1111")
                 IBAN.random(random=_random.Random(2))
                 IBAN.from_bban("FO", "64600001631634")
             except ValueError:
